@@ -477,7 +477,8 @@ def parent_ok(P, f):
                 if c[0] == 'bin' and is_call(strip(c[2]), '::len') and strip(strip(c[2])[2][0]) in selfv:
                     return (c[1] in ('Gt', 'Ne') and is_int(c[3], 0)) or (c[1] == 'Ge' and is_int(c[3], 1))
                 return False
-            return bool(len(conds) == 1 and nonempty(conds[0]) and _all_but_last(body)), show(e)[:80]
+            if len(conds) == 1 and nonempty(conds[0]) and _all_but_last(body):
+                return True, show(e)[:80]
     # form 2: let (_last, init) = self.0.split_last()?; Some(ItemPath(init.to_vec()))
     somes = [v for v in vals if v[0] == 'some']
     props = [x for x in ex if x['kind'] == 'none_prop']
